@@ -96,7 +96,10 @@ class SliceV:
         self.lo, self.hi, self.step = lo, hi, step
 
     def key(self):
-        return ("slice", vkey(self.lo), vkey(self.hi), vkey(self.step))
+        lo = self.lo
+        if isinstance(lo, Form) and lo.is_zero() and (isinstance(self.step, Const) and self.step.v is None or (isinstance(self.step, Form) and self.step.rational() is not None and self.step.rational() > 0)):
+            lo = Const(None)          # x[0:k] selects what x[:k] selects (forward slices)
+        return ("slice", vkey(lo), vkey(self.hi), vkey(self.step))
 
     def __eq__(self, o):
         return isinstance(o, SliceV) and self.key() == o.key()
@@ -198,6 +201,11 @@ class Form:
 
     @staticmethod
     def atom(a):
+        if a[0] == "idx" and isinstance(a[2], SliceV) and isinstance(a[1], Form):
+            sl = a[2]
+            none = lambda x: isinstance(x, Const) and x.v is None
+            if (none(sl.lo) or (isinstance(sl.lo, Form) and sl.lo.is_zero())) and none(sl.hi) and (none(sl.step) or (isinstance(sl.step, Form) and sl.step.rational() == 1)):
+                return a[1]           # x[:] / x[0:] holds the values of x
         return Form({((a, F1),): (F1, F0)})
 
     @staticmethod
